@@ -96,8 +96,15 @@ def run_loader(case: dict, d: str, do_parse: bool = True, do_load: bool = True, 
             out["parse_error"] = type(e).__name__ + ": " + str(e)[:300]
     if do_load:
         try:
-            t = Trace(trace_files=dict(paths), trace_dir=d)
-            t.load_traces(include_last_profiler_step=incl, use_multiprocessing=mp_flag)
+            if rr.random() < 0.5:
+                t = Trace(trace_files=dict(paths), trace_dir=d)
+                t.load_traces(include_last_profiler_step=incl, use_multiprocessing=mp_flag)
+                out["route"] = "Trace.load_traces"
+            else:
+                # the public constructor (it loads with its own defaults for the pool; the option is forwarded)
+                from hta.trace_analysis import TraceAnalysis
+                t = TraceAnalysis(trace_files=dict(paths), trace_dir=d, include_last_profiler_step=incl).t
+                out["route"] = "TraceAnalysis(...)"
             sym = t.symbol_table.get_sym_table()
             out["load"] = {r: fw.dump_frame(t.get_trace(r), sym) for r in sorted(t.traces)}
             out["load_index_ok"] = all(list(t.get_trace(r).index) == list(t.get_trace(r)["index"]) for r in t.traces)
